@@ -778,6 +778,7 @@ func c15FdRun(c *ctx, tmp string, seq *int) {
 	rd.Close()
 	rafter := c15Fds()
 	rootSrc, _ := a.RootSource()
+	wbase := c15Fds() // the writer is judged against what was open when it started
 	wpeak := 0
 	res := c15Write(tmp, seq, rootSrc, c15CutAt(c15Concat(outs), func() []int {
 		var cuts []int
@@ -795,16 +796,20 @@ func c15FdRun(c *ctx, tmp string, seq *int) {
 	c.count("fds:run")
 	c.stats["fds:entries"] = nEntries
 	c.stats["fds:reader-peak-minus-baseline"] = rpeak - base
-	c.stats["fds:writer-peak-minus-baseline"] = wpeak - base
-	c.stats["fds:left-open-after-close"] = wafter - base
+	c.stats["fds:writer-peak-minus-baseline"] = wpeak - wbase
+	c.stats["fds:left-open-after-close"] = wafter - wbase
 	if end != "eof" || res != "ok|"+c15CanonNodes(nodes) {
 		c.violate("roundtrip-tree", "large flat tree not reconstructed", detail+" end="+end)
 	}
 	const slack = 2
-	if rpeak-base > slack || rafter != base {
+	if rpeak-base > slack {
 		c.violate("reader-fd-growth", "archive reader: open descriptors grow with the entry count", detail)
+	} else if rafter != base {
+		c.violate("reader-fd-left-open", "archive reader: a descriptor is still open after Close", detail)
 	}
-	if wpeak-base > slack || wafter != base {
+	if wpeak-wbase > slack {
 		c.violate("writer-fd-growth", "archive writer: open descriptors grow with the entry count (previous entry's file is not closed)", detail)
+	} else if wafter != wbase {
+		c.violate("writer-fd-left-open", "archive writer: a descriptor is still open after Close", detail)
 	}
 }
